@@ -96,6 +96,7 @@ structure PickAt (F : BodyFn) (P : Project) (g : G) (cfg : Cfg) (so : Sorter) (s
   hcr : s1.crashed = false
   hfind : Project.find? P x = some spec
   hpost : Run F P g cfg (next so1 x) (protocol F P g cfg s1 spec) post so' s'
+  hrest : Run F P g cfg so1 s1 (x :: post) so' s'
 
 theorem PickAt.cons {so : Sorter} {s : Sess} {p : Nat} {spec0 : TaskSpec} {ts : List Nat} {so' : Sorter} {s' : Sess}
     {x : Nat} {pre post : List Nat} {so1 : Sorter} {s1 : Sess} {spec : TaskSpec}
@@ -103,14 +104,14 @@ theorem PickAt.cons {so : Sorter} {s : Sess} {p : Nat} {spec0 : TaskSpec} {ts : 
     (h4 : Sorter.legalBatchB so 1 [tv p] = true) (h5 : Project.find? P p = some spec0)
     (h : PickAt F P g cfg (next so p) (protocol F P g cfg s spec0) ts so' s' x pre post so1 s1 spec) :
     PickAt F P g cfg so s (p :: ts) so' s' x (p :: pre) post so1 s1 spec :=
-  ⟨by rw [h.hp]; rfl, Run.cons h1 h2 h3 h4 h5 h.hpre, h.hstop, h.hcr, h.hfind, h.hpost⟩
+  ⟨by rw [h.hp]; rfl, Run.cons h1 h2 h3 h4 h5 h.hpre, h.hstop, h.hcr, h.hfind, h.hpost, h.hrest⟩
 
 theorem pickAt_of_split {so : Sorter} {s : Sess} {pre post : List Nat} {x : Nat} {so' : Sorter} {s' : Sess}
     (h : Run F P g cfg so s (pre ++ x :: post) so' s') :
     ∃ so1 s1 spec, PickAt F P g cfg so s (pre ++ x :: post) so' s' x pre post so1 s1 spec := by
   obtain ⟨so1, s1, r1, r2⟩ := Run.split pre h
   cases r2 with
-  | cons a b c d e h' => exact ⟨so1, s1, _, rfl, r1, a, b, e, h'⟩
+  | cons a b c d e h' => exact ⟨so1, s1, _, rfl, r1, a, b, e, h', Run.cons a b c d e h'⟩
 
 theorem pickAt_of_mem {so : Sorter} {s : Sess} {picks : List Nat} {x : Nat} {so' : Sorter} {s' : Sess}
     (h : Run F P g cfg so s picks so' s') (hx : x ∈ picks) :
@@ -132,7 +133,7 @@ theorem Run.origin {φ : Sess → Prop} {ψ : Sess → TaskSpec → Prop}
     rcases ih hφ with h0 | ⟨x, pre, post, so1, s1, spec1, hpa, hψ⟩
     · rcases hstep _ _ h0 with h0 | h0
       · exact Or.inl h0
-      · exact Or.inr ⟨t, [], ts, so, s, spec, ⟨rfl, Run.nil _ _, h1, h2, h5, htail⟩, h0⟩
+      · exact Or.inr ⟨t, [], ts, so, s, spec, ⟨rfl, Run.nil _ _, h1, h2, h5, htail, Run.cons h1 h2 h3 h4 h5 htail⟩, h0⟩
     · exact Or.inr ⟨x, t :: pre, post, so1, s1, spec1, PickAt.cons h1 h2 h3 h4 h5 hpa, hψ⟩
 
 /-! ### one protocol: reports, marks, log -/
@@ -313,7 +314,199 @@ theorem PickAt.extend {so : Sorter} {s : Sess} {mid : List Nat} {som : Sorter} {
     {pre post : List Nat} {so1 : Sorter} {s1 : Sess} {spec : TaskSpec} {rest : List Nat} {so' : Sorter} {s' : Sess}
     (h : PickAt F P g cfg so s mid som sm x pre post so1 s1 spec) (hr : Run F P g cfg som sm rest so' s') :
     PickAt F P g cfg so s (mid ++ rest) so' s' x pre (post ++ rest) so1 s1 spec :=
-  ⟨by rw [h.hp]; simp, h.hpre, h.hstop, h.hcr, h.hfind, h.hpost.append hr⟩
+  ⟨by rw [h.hp]; simp, h.hpre, h.hstop, h.hcr, h.hfind, h.hpost.append hr, h.hrest.append hr⟩
+
+/-! ### order of picks (re-export of `buildLoop_order` for `Run`) -/
+
+theorem tv_inj' {a b : Nat} (h : tv a = tv b) : a = b := by unfold tv at h; omega
+
+theorem isTaskV_tv (t : Nat) : isTaskV (tv t) = true := by unfold isTaskV tv; simp
+
+theorem taskV_eq {v : Nat} (h : isTaskV v = true) : v = tv (v / 2) := by
+  unfold isTaskV at h; unfold tv
+  have : v % 2 = 0 := by simpa using h
+  omega
+
+theorem mem_taskAnc {g : G} {a t : Nat} : a ∈ taskAnc g t ↔ tv a ∈ g.anc (tv t) := by
+  unfold taskAnc
+  simp only [List.mem_map, List.mem_filter]
+  constructor
+  · rintro ⟨v, ⟨hv, hT⟩, rfl⟩; rw [← taskV_eq hT]; exact hv
+  · intro h; exact ⟨tv a, ⟨h, isTaskV_tv a⟩, by unfold tv; omega⟩
+
+theorem mem_taskDesc {g : G} {d t : Nat} : d ∈ taskDesc g t ↔ tv d ∈ g.desc (tv t) := by
+  unfold taskDesc
+  simp only [List.mem_map, List.mem_filter]
+  constructor
+  · rintro ⟨v, ⟨hv, hT⟩, rfl⟩; rw [← taskV_eq hT]; exact hv
+  · intro h; exact ⟨tv d, ⟨h, isTaskV_tv d⟩, by unfold tv; omega⟩
+
+/-- `descending_tasks(f)` are exactly the tasks that have `f` among their task-ancestors. -/
+theorem taskDesc_iff_taskAnc {g : G} {f d : Nat} : d ∈ taskDesc g f ↔ f ∈ taskAnc g d := by
+  rw [mem_taskDesc, mem_taskAnc, G.mem_desc_iff_mem_anc]
+
+theorem run_order {so : Sorter} {s : Sess} {picks : List Nat} {so' : Sorter} {s' : Sess}
+    (hso : fromDag g isTaskV (prioFn P) = .ok so) (h : Run F P g cfg so s picks so' s') :
+    picks.Nodup ∧ ∀ pre t post, picks = pre ++ t :: post → ∀ a ∈ taskAnc g t, a ∈ pre := by
+  have hb := buildLoop_of_run h
+  obtain ⟨hd0, hp0⟩ := fromDag_init hso
+  have hr0 : Reach so.edges so [] := Reach.init so hd0 hp0
+  obtain ⟨hr1, _, hord, _⟩ := buildLoop_order F P g cfg picks so.edges so s [] so' s' hr0 hd0 hb
+  constructor
+  · have hnd : (picks.map tv).Nodup := by simpa using (reach_inv hr1).hnodup
+    have := List.pairwise_map.1 hnd
+    exact this.imp (fun hne heq => hne (by rw [heq]))
+  · intro pre t post hp a ha
+    have hv := mem_taskAnc.1 ha
+    have htn : tv t ∈ g.nodes ∧ isTaskV (tv t) = true := by
+      have key := buildLoop_picked_node F P g cfg picks so s so' s' hb t (by rw [hp]; simp)
+      rw [fromDag_nodes hso] at key
+      simpa using key
+    have hedge : (tv a, tv t) ∈ so.edges := (fromDag_edges hso (tv a) (tv t)).2 ⟨htn.1, htn.2, hv, isTaskV_tv a⟩
+    have := hord pre t post hp (tv a) hedge
+    simp only [List.nil_append, List.mem_map] at this
+    obtain ⟨a', ha', hv'⟩ := this
+    rw [← tv_inj' hv']; exact ha'
+
+/-! ### containment -/
+
+/-- If `f` was picked before `d` in the same run, the session in which `d`'s protocol starts lies
+behind `f`'s protocol. -/
+theorem pick_before {so : Sorter} {s : Sess} {picks : List Nat} {so' : Sorter} {s' : Sess} (hn : picks.Nodup)
+    {f d : Nat} {pre post pre_d post_d : List Nat} {so1 so2 : Sorter} {s1 s2 : Sess} {spec spec_d : TaskSpec}
+    (hf : PickAt F P g cfg so s picks so' s' f pre post so1 s1 spec)
+    (hd : PickAt F P g cfg so s picks so' s' d pre_d post_d so2 s2 spec_d) (hmem : f ∈ pre_d) :
+    ∃ B, Run F P g cfg (next so1 f) (protocol F P g cfg s1 spec) B so2 s2 := by
+  obtain ⟨A, B, so_f, s_f, spec_f, hsub⟩ := pickAt_of_mem hd.hpre hmem
+  have hrest := hd.hrest
+  have hext := hsub.extend hrest
+  rw [← hd.hp] at hext
+  obtain ⟨_, _, rfl, rfl, rfl⟩ := hf.unique hn hext
+  exact ⟨B, hsub.hpost⟩
+
+/-- **Containment, core form.** In a run that starts without fail marks, reports and log: no
+descendant of a task reported FAIL has a body-log entry. -/
+theorem contain_core {so : Sorter} {s : Sess} {picks : List Nat} {so' : Sorter} {s' : Sess}
+    (hso : fromDag g isTaskV (prioFn P) = .ok so) (h : Run F P g cfg so s picks so' s')
+    (hr0 : s.reports = []) (hl0 : s.log = [])
+    {f d : Nat} (hfail : (f, Outcome.fail) ∈ s'.reports) (hd : d ∈ taskDesc g f) : d ∉ s'.log := by
+  intro hlog
+  obtain ⟨hn, hord⟩ := run_order hso h
+  rcases report_origin h f .fail hfail with h0 | ⟨pre, post, so1, s1, spec, hpf, ho⟩
+  · rw [hr0] at h0; cases h0
+  have he : (runPhases F P g cfg s1 spec).1 = .error := outc_inj (a := (runPhases F P g cfg s1 spec).1) (b := .error) ho
+  rcases log_origin h d hlog with h0 | ⟨pre_d, post_d, so2, s2, spec_d, hpd, hlg⟩
+  · rw [hl0] at h0; cases h0
+  have hfa : f ∈ pre_d := hord pre_d d post_d hpd.hp f (taskDesc_iff_taskAnc.1 hd)
+  obtain ⟨B, hB⟩ := pick_before hn hpf hpd hfa
+  have hmark : d ∈ s2.failMarks := by
+    apply hB.failMarks_mono
+    rw [protocol_failMarks, if_pos he, hpf.id_eq]
+    exact List.mem_append.2 (Or.inr hd)
+  have hc : s2.failMarks.contains spec_d.id = true := by rw [hpd.id_eq]; simpa using hmark
+  rcases runPhases_failMarked (F := F) (P := P) (g := g) (cfg := cfg) s2 spec_d hc with h1 | h1 <;>
+    (rw [h1] at hlg; simp at hlg)
+
+/-- A task carries a `skip_ancestor_failed` mark only if one of its task-ancestors was reported FAIL. -/
+theorem failMark_sound {so : Sorter} {s : Sess} {picks : List Nat} {so' : Sorter} {s' : Sess}
+    (h : Run F P g cfg so s picks so' s') (hm0 : s.failMarks = []) {m : Nat} (hm : m ∈ s'.failMarks) :
+    ∃ f, f ∈ taskAnc g m ∧ (f, Outcome.fail) ∈ s'.reports := by
+  rcases failMark_origin h m hm with h0 | ⟨f, pre, post, so1, s1, spec, hpa, he, hd⟩
+  · rw [hm0] at h0; cases h0
+  refine ⟨f, taskDesc_iff_taskAnc.1 hd, ?_⟩
+  rcases hpa.report with hr | hr
+  · rw [he] at hr; exact hr
+  · rw [he] at hr; cases hr.1
+
+/-! ### nothing recorded -/
+
+theorem protocol_db_other (s : Sess) (spec : TaskSpec) (x : Nat) (hx : x ≠ spec.id) (n : Nat) :
+    lookup (protocol F P g cfg s spec).w.db (tv x, n) = lookup s.w.db (tv x, n) := by
+  unfold protocol
+  rw [processReport_db_other _ _ _ x hx n, (runPhases_frame (F := F) (P := P) (g := g) (cfg := cfg) s spec).1]
+
+/-- The protocol of a task that ends neither in SUCCESS nor in PERSISTENCE leaves the database untouched. -/
+theorem protocol_db_norecord (s : Sess) (spec : TaskSpec) (h1 : (runPhases F P g cfg s spec).1 ≠ .none)
+    (h2 : (runPhases F P g cfg s spec).1 ≠ .persisted) : (protocol F P g cfg s spec).w.db = s.w.db := by
+  unfold protocol
+  rw [processReport_w _ _ _ h1 h2, (runPhases_frame (F := F) (P := P) (g := g) (cfg := cfg) s spec).1]
+
+theorem Run.db_other {so : Sorter} {s : Sess} {picks : List Nat} {so' : Sorter} {s' : Sess}
+    (h : Run F P g cfg so s picks so' s') (x : Nat) (hx : x ∉ picks) (n : Nat) :
+    lookup s'.w.db (tv x, n) = lookup s.w.db (tv x, n) := by
+  induction h with
+  | nil => rfl
+  | cons _ _ _ _ hf _ ih =>
+    simp only [List.mem_cons, not_or] at hx
+    rw [ih hx.2]
+    exact protocol_db_other _ _ x (by rw [find?_id hf]; exact hx.1) n
+
+/-- **Nothing recorded, core form.** The database rows of a task that is reported with an outcome
+other than SUCCESS / PERSISTENCE are, at the end of the run, what they were at its start. -/
+theorem norecord_core {so : Sorter} {s : Sess} {picks : List Nat} {so' : Sorter} {s' : Sess}
+    (hn : picks.Nodup) (h : Run F P g cfg so s picks so' s') (hr0 : s.reports = [])
+    {t : Nat} {o : Outcome} (hrep : (t, o) ∈ s'.reports) (h1 : o ≠ .success) (h2 : o ≠ .persistence) (n : Nat) :
+    lookup s'.w.db (tv t, n) = lookup s.w.db (tv t, n) := by
+  rcases report_origin h t o hrep with h0 | ⟨pre, post, so1, s1, spec, hpa, ho⟩
+  · rw [hr0] at h0; cases h0
+  have hnd : (pre ++ t :: post).Nodup := by rw [← hpa.hp]; exact hn
+  have hnpre : t ∉ pre := fun hm => by
+    have := List.nodup_append.1 hnd
+    exact this.2.2 t hm t (by simp) rfl
+  have hnpost : t ∉ post := by
+    have := (List.nodup_append.1 hnd).2.1
+    exact (List.nodup_cons.1 this).1
+  rw [hpa.hpost.db_other t hnpost n, protocol_db_norecord, hpa.hpre.db_other t hnpre n]
+  · intro hc; rw [hc] at ho; exact h1 ho.symm
+  · intro hc; rw [hc] at ho; exact h2 ho.symm
+
+/-! ### failure limit -/
+
+def failCount (rs : List (Nat × Outcome)) : Nat := (rs.filter (fun r => r.2 == Outcome.fail)).length
+
+theorem failCount_append (a b : List (Nat × Outcome)) : failCount (a ++ b) = failCount a + failCount b := by
+  simp [failCount]
+
+/-- Invariant of the failure counter: it counts the FAIL reports, and while the stop flag is down
+the limit has not been reached. -/
+structure LimitInv (cfg : Cfg) (s : Sess) : Prop where
+  count : s.nFailed = failCount s.reports
+  below : ∀ n, cfg.maxFail = some n → s.stop = false → s.nFailed < n ∨ s.nFailed = 0
+
+theorem protocol_limitInv (s : Sess) (spec : TaskSpec) (hi : LimitInv cfg s) :
+    LimitInv cfg (protocol F P g cfg s spec) := by
+  have hfr := runPhases_frame (F := F) (P := P) (g := g) (cfg := cfg) s spec
+  have hnf : (protocol F P g cfg s spec).nFailed =
+      if (runPhases F P g cfg s spec).1 = .error then s.nFailed + 1 else s.nFailed := by
+    unfold protocol; rw [processReport_nFailed, hfr.2.2.2.2.1]
+  have hst := processReport_stop (P := P) (g := g) (cfg := cfg) (runPhases F P g cfg s spec).2 spec (runPhases F P g cfg s spec).1
+  rw [hfr.2.2.2.2.1, hfr.2.2.2.2.2.1] at hst
+  change (protocol F P g cfg s spec).stop = _ at hst
+  constructor
+  · rw [hnf]
+    rcases protocol_reports (F := F) (P := P) (g := g) (cfg := cfg) s spec with hr | hr
+    · rw [hr, failCount_append, ← hi.count]
+      by_cases he : (runPhases F P g cfg s spec).1 = .error
+      · simp [he, failCount, outc]
+      · have : outc (runPhases F P g cfg s spec).1 ≠ .fail := fun hc => he (outc_inj (b := .error) hc)
+        simp [he, failCount, this]
+    · rw [hr.2.1, ← hi.count, hr.1]; simp
+  · intro n hn hs
+    rw [hst, hn] at hs
+    simp only [Bool.or_eq_false_iff, Bool.and_eq_false_iff, decide_eq_false_iff_not] at hs
+    rw [hnf]
+    by_cases he : (runPhases F P g cfg s spec).1 = .error
+    · simp only [he, if_true]
+      rcases hs.2 with h | h
+      · exact absurd he h
+      · left; omega
+    · simp only [he, if_false]; exact hi.below n hn hs.1
+
+theorem Run.limitInv {so : Sorter} {s : Sess} {picks : List Nat} {so' : Sorter} {s' : Sess}
+    (h : Run F P g cfg so s picks so' s') (hi : LimitInv cfg s) : LimitInv cfg s' := by
+  induction h with
+  | nil => exact hi
+  | cons _ _ _ _ _ _ ih => exact ih (protocol_limitInv _ _ hi)
 
 end Engine
 end Pytask
